@@ -705,6 +705,12 @@ pub fn f_push(seed: u64, exhaustive_scripts: bool) -> Plan {
         if n > 0 {
             scripts.push(vec![Step::after(rng.below(200_000), Op::Publish { topic: topic.clone(), msgs: msgs(&mut rng, n as usize, true) })]);
         }
+        if !exhaustive_scripts && ph == 0 && rng.chance(50) {
+            // a page of 70-260 messages to an endpoint that answers none of them: their leases run
+            // out at one and the same instant, which is also the instant of a later round's pull
+            plan.endpoint = EndpointPlan { palette: vec![Behaviour::Never], fault_attempts: 1, script: vec![], after: None };
+            scripts.push(vec![Step::after(rng.below(50_000), Op::PublishMany { topic: topic.clone(), count: rng.range(70, 260) as u32 })]);
+        }
         if !exhaustive_scripts && deleted.is_none() && rng.chance(120) {
             // the subscription is deleted while a push round is working through a page of messages
             // (the POSTs of one round start 5 ms apart when the endpoint is slow)
@@ -1219,7 +1225,7 @@ pub fn f_hostile(seed: u64) -> Plan {
         let enc = |v: u64| base64::engine::general_purpose::STANDARD.encode(v.to_ne_bytes());
         vec![String::new(), "@@@".into(), "AAAA".into(), "%%%".into(), "AAAAAAAAAAAA".into(), enc(0), enc(1), enc(2), enc(3), enc(5), enc(1000), enc(u64::MAX), enc(u64::MAX - 1), enc(1 << 33), enc(rng.next())]
     };
-    let bad_acks: Vec<String> = vec![String::new(), "abc".into(), "-1".into(), "1.5".into(), " 7".into(), "7 ".into(), "99999999999999999999999999".into(), "0x10".into(), "١٢٣".into()];
+    let bad_acks: Vec<String> = vec![String::new(), "abc".into(), "-1".into(), "1.5".into(), " 7".into(), "7 ".into(), "99999999999999999999999999".into(), "0x10".into(), "١٢٣".into(), "18446744073709551617".into(), "340282366920938463463374607431768211457".into()];
     let odd_acks: Vec<String> = vec!["+5".into(), "0007".into(), "18446744073709551615".into(), "18446744073709551616".into()];
     let mut scripts: Vec<Vec<Step>> = Vec::new();
     let mut slot = 1u32;
@@ -1244,6 +1250,17 @@ pub fn f_hostile(seed: u64) -> Plan {
                 11 => Op::Pull { sub: sub2.clone(), max: *rng.pick(&[0i32, -1, i32::MIN, 65536, 65537, i32::MAX]), immediate: true },
                 12 => Op::Ack { sub: name, sel: sel_any(Pick::LastN(1)) },
                 // one bad element at a drawn position of an otherwise valid batch
+                13 if rng.chance(300) => {
+                    // many malformed IDs in one request (a status that names them all would not fit)
+                    let n = *rng.pick(&[150usize, 600, 2000]);
+                    let width = if n == 150 { 200 } else { 40 };
+                    let ids: Vec<String> = (0..n).map(|i| format!("bad-{i}-{}", "z".repeat(width))).collect();
+                    if rng.chance(500) {
+                        Op::Ack { sub: sub.clone(), sel: Sel { mine: false, pick: Pick::LastN(1), extra: ids, ..Sel::none() } }
+                    } else {
+                        Op::ModAck { sub: sub.clone(), sel: Sel { mine: false, pick: Pick::LastN(1), extra: ids, ..Sel::none() }, secs: 20 }
+                    }
+                }
                 13 | 14 => {
                     let mut ids: Vec<String> = Vec::new();
                     let pos = rng.below(3);
